@@ -99,7 +99,7 @@ ASSUMPTIONS = [
 ]
 EXPECTED_PROBES = ([f"driven.{c}" for c in DRIVEN_CLASSES] +
                    ["probe.arr_burst", "probe.arr_idle_gap", "probe.arr_ns_step", "probe.arr_at_timer_expiry", "probe.arr_steady", "probe.arr_decimal_step", "probe.nonzero_start_time", "probe.arr_retry_storm", "probe.arr_overload", "probe.signed_jitter", "probe.boundary_value_accepted",
-                    "probe.boundary_value_refused",
+                    "probe.boundary_value_refused", "probe.manual_tick",
                     "probe.zero_delay_config", "probe.same_instant_10plus", "probe.repo_timer_in_future",
                     "probe.process_parked_on_future", "fault.partition", "fault.crash", "fault.pause", "fault.loss",
                     "fault.latency", "fault.stragglers", "fault.msgs_dropped_by_partition"])
@@ -176,6 +176,8 @@ def run(sc):
             return result(sig=None, msg="boundary value refused by the constructor; base configuration not runnable",
                           digest="refused", nontrivial=False, counters={"probe.boundary_value_refused": 1},
                           klass=d["name"], extra={"all_sigs": [], "status": "refused", "max_same_t": 0})
+    if z.detail and z.violations:
+        z.violations = [(f"{s_}/{z.detail}", m_) for s_, m_ in z.violations]
     if bv_state == "accepted" and z.violations:
         # boundary-value runs carry the replaced parameters in the signature, so that e.g. a zero heartbeat interval
         # (a configuration matter) and a heartbeat re-armed at now+0 by the code never share a signature
